@@ -279,6 +279,17 @@ func (m *Machine) convert(v Val, from, to types.Type) Val {
 			return FloatV{f, w}
 		}
 		if isString(to) {
+			if !t.IsConst() && fw <= 32 {
+				r := t
+				if fw < 32 {
+					if fsigned {
+						r = SExt(t, 32)
+					} else {
+						r = ZExt(t, 32)
+					}
+				}
+				return strFromBytes(m.encodeRuneSym(r), false)
+			}
 			c := m.concreteValue(t, "integer to string conversion")
 			return mkStr(string(rune(sext64(c, fw))))
 		}
@@ -319,7 +330,15 @@ func (m *Machine) convert(v Val, from, to types.Type) Val {
 				return SliceV{A: a, Len: len(bs), Cap: len(bs)}
 			case types.Int32:
 				if !s.Conc() {
-					m.unmodelled("[]rune of a symbolic string")
+					// decode rune by rune as a range loop would (an invalid byte
+					// gives U+FFFD, width 1)
+					a := &ArrObj{O: o}
+					for pos := 0; pos < s.Len(); {
+						r, size := m.decodeRuneSym(s, pos)
+						a.E = append(a.E, &Cell{V: r, O: o})
+						pos += size
+					}
+					return SliceV{A: a, Len: len(a.E), Cap: len(a.E)}
 				}
 				rs := []rune(s.S)
 				a := &ArrObj{E: make([]*Cell, len(rs)), O: o}
@@ -341,6 +360,19 @@ func (m *Machine) convert(v Val, from, to types.Type) Val {
 			}
 			return strFromBytes(bs, false)
 		case types.Int32:
+			allConc := true
+			for i := 0; i < s.Len; i++ {
+				if !s.A.E[s.Off+i].V.(*Term).IsConst() {
+					allConc = false
+				}
+			}
+			if !allConc {
+				var bs []*Term
+				for i := 0; i < s.Len; i++ {
+					bs = append(bs, m.encodeRuneSym(s.A.E[s.Off+i].V.(*Term))...)
+				}
+				return strFromBytes(bs, false)
+			}
 			buf := []byte{}
 			for i := 0; i < s.Len; i++ {
 				t := s.A.E[s.Off+i].V.(*Term)
@@ -362,6 +394,42 @@ func (m *Machine) convert(v Val, from, to types.Type) Val {
 	}
 	m.unmodelled("conversion %s -> %s", from, to)
 	return nil
+}
+
+// encodeRuneSym is utf8.AppendRune on a symbolic rune: the path forks on the
+// width class, the bytes are terms over the rune.
+func (m *Machine) encodeRuneSym(r *Term) []*Term {
+	if r.IsConst() {
+		var out []*Term
+		for _, b := range utf8.AppendRune(nil, rune(int32(r.C))) {
+			out = append(out, BV(8, uint64(b)))
+		}
+		return out
+	}
+	lo6 := func(sh int) *Term {
+		x := BinBV("bvand", BinBV("bvlshr", r, BV(32, uint64(sh))), BV(32, 0x3F))
+		return Extract(BinBV("bvor", x, BV(32, 0x80)), 7, 0)
+	}
+	lead := func(sh int, tag uint64) *Term {
+		return Extract(BinBV("bvor", BinBV("bvlshr", r, BV(32, uint64(sh))), BV(32, tag)), 7, 0)
+	}
+	repl := []*Term{BV(8, 0xEF), BV(8, 0xBF), BV(8, 0xBD)}
+	if m.branch(Cmp("bvult", r, BV(32, 0x80)), "rune to string: one byte") {
+		return []*Term{Extract(r, 7, 0)}
+	}
+	if m.branch(Cmp("bvult", r, BV(32, 0x800)), "rune to string: two bytes") {
+		return []*Term{lead(6, 0xC0), lo6(0)}
+	}
+	if m.branch(Cmp("bvult", BV(32, 0x10FFFF), r), "rune to string: out of range") {
+		return repl
+	}
+	if m.branch(And(Cmp("bvule", BV(32, 0xD800), r), Cmp("bvule", r, BV(32, 0xDFFF))), "rune to string: surrogate") {
+		return repl
+	}
+	if m.branch(Cmp("bvult", r, BV(32, 0x10000)), "rune to string: three bytes") {
+		return []*Term{lead(12, 0xE0), lo6(6), lo6(0)}
+	}
+	return []*Term{lead(18, 0xF0), lo6(12), lo6(6), lo6(0)}
 }
 
 // concreteValue forces t to a single concrete value on this path by asking the
